@@ -29,7 +29,7 @@ type UserSpec struct {
 	Elem    string   `json:"elem"`              // element type for generic instantiations ("int", "string", "float64", "lib.Base", "[]int")
 }
 
-var stmtKinds = []string{"outer", "mid", "inner", "outerbox", "midbox", "map", "sum", "box", "apply", "pair", "iface", "ptriface", "embiface", "bound", "thunk", "mexpr", "seq", "chain", "dep", "nested", "recur", "boxmethodval"}
+var stmtKinds = []string{"mix", "alias", "peek", "outer", "mid", "inner", "outerbox", "midbox", "map", "sum", "box", "apply", "pair", "iface", "ptriface", "embiface", "bound", "thunk", "mexpr", "seq", "chain", "dep", "nested", "recur", "boxmethodval"}
 
 const baseSrc = `package base
 
@@ -40,6 +40,11 @@ func (b B) Name() string { return "base" }
 func (b *B) Inc() { b.N++ }
 
 func (b B) Twice() int { return b.N * 2 }
+
+func (b B) hidden() int { return b.N }
+
+// Peek calls the unexported method.
+func (b B) Peek() int { return b.hidden() }
 `
 
 const libSrc = `package lib
@@ -108,6 +113,16 @@ func Nest[T any](x T, n int) Box[T] {
 
 type Base struct{ base.B }
 
+type Other struct{ S string }
+
+func (o Other) Title() string { return o.S }
+
+func (o *Other) Reset() { o.S = "" }
+
+func (o Other) hidden() int { return len(o.S) }
+
+type Titler interface{ Title() string }
+
 type Namer interface{ Name() string }
 
 type Incer interface{ Inc() }
@@ -172,6 +187,9 @@ func (ps *ProgSpec) sources() map[string]string {
 		w("type PWrap struct{ *lib.Base }\n\n")
 		w("type IW struct{ lib.Namer }\n\n")
 		w("type Deep struct{ Wrap }\n\n")
+		w("type Mix struct {\n\tWrap\n\tlib.Other\n}\n\n")
+		w("type WA = Wrap\n\n")
+		w("type NT interface {\n\tlib.Namer\n\tlib.Titler\n}\n\n")
 		E := u.Elem
 		z := zeroOf(E)
 		numeric := E == "int" || E == "float64"
@@ -179,6 +197,12 @@ func (ps *ProgSpec) sources() map[string]string {
 		for k, s := range u.Stmts {
 			w("func F%d() {\n", k)
 			switch s {
+			case "mix":
+				w("\tvar n NT = Mix{}\n\tvar t lib.Titler = &Mix{}\n\tf := Mix{}.Title\n\tg := (*Mix).Reset\n\tm := &Mix{}\n\tg(m)\n\tvar i lib.Incer = m\n\ti.Inc()\n\tSink = append(Sink, n.Name(), n.Title(), t.Title(), f())\n")
+			case "alias":
+				w("\tvar n lib.Namer = WA{}\n\th := WA.Name\n\tk := (*WA).Inc\n\tx := WA{}\n\tk(&x)\n\tSink = append(Sink, n.Name(), h(x))\n")
+			case "peek":
+				w("\tw := Wrap{}\n\tp := w.Peek\n\tq := Deep.Peek\n\tSink = append(Sink, p(), q(Deep{}), Mix{}.Peek())\n")
 			case "outer":
 				w("\tSink = append(Sink, lib.Outer(%s))\n", z)
 			case "mid":
